@@ -106,8 +106,10 @@ type caseOut struct {
 	Sv          *jresult    `json:"sv,omitempty"`
 	Model       *mPayload   `json:"model,omitempty"`
 	Spec        *exprCase   `json:"spec,omitempty"`
-	Known       []string    `json:"known,omitempty"`       // finding ids that explain Diff / RiDiff completely
-	Unexplained bool        `json:"unexplained,omitempty"` // a disagreement outside every recorded signature
+	Transient   string      `json:"transient,omitempty"`    // an unexplained disagreement that vanished when the query was repeated
+	GroupingTie string      `json:"grouping_tie,omitempty"` // transpiled grouping of `agg op scalar` differs from the operand's
+	Known       []string    `json:"known,omitempty"`        // finding ids that explain Diff / RiDiff completely
+	Unexplained bool        `json:"unexplained,omitempty"`  // a disagreement outside every recorded signature
 	Explain     *explain    `json:"explain,omitempty"`
 	Replay      *replayFile `json:"replay,omitempty"` // complete input of an unexplained case
 }
@@ -335,26 +337,67 @@ func sampleTimes(ds *dataset) []int64 {
 	return ts
 }
 
-// pickTime: evaluation times that hit and miss sample timestamps, before/after the data, inside gaps.
-func pickTime(r *gen.Rand, ds *dataset, all []int64, e *exprCase) (int64, bool) {
-	off, rg := int64(0), int64(0)
-	if e.Sel != nil {
-		off, rg = e.Sel.OffsetMs, e.RangeMs
+// gapEnds: per metric, the time stamps of samples that are the last before a gap longer than the look-back delta or
+// the last of their series - the instants whose look-back window closes exactly look-back later.
+func gapEnds(ds *dataset) map[string][]int64 {
+	out := map[string][]int64{}
+	for _, s := range ds.Series {
+		m := s.Labels["__name__"]
+		for i, p := range s.Samples {
+			if i == len(s.Samples)-1 || s.Samples[i+1].T > p.T+lookbackMs {
+				out[m] = append(out[m], p.T)
+				out[""] = append(out[""], p.T)
+			}
+		}
 	}
-	switch r.Intn(10) {
+	return out
+}
+
+func hintOf(e *exprCase) *selSpec {
+	if e.Sel != nil {
+		return e.Sel
+	}
+	return e.Hint
+}
+
+func boundaryDelta(r *gen.Rand) int64 {
+	return int64([]int{0, 0, 0, -1, 1}[r.Intn(5)])
+}
+
+// pickTime: evaluation times that hit and miss sample timestamps, before/after the data, inside gaps, and exactly
+// look-back-delta (+-1 ms) after the last sample before a gap / series end.
+func pickTime(r *gen.Rand, ds *dataset, all []int64, ge map[string][]int64, e *exprCase) (int64, bool) {
+	off, rg := int64(0), int64(0)
+	metric := ""
+	if h := hintOf(e); h != nil {
+		off, metric = h.OffsetMs, h.Metric
+	}
+	if e.Sel != nil {
+		rg = e.RangeMs
+	}
+	ends := ge[metric]
+	if len(ends) == 0 {
+		ends = ge[""]
+	}
+	switch r.Intn(13) {
 	case 0, 1, 2: // exactly on a sample (after applying the selector's offset)
 		return all[r.Intn(len(all))] + off, true
 	case 3: // a sample sits exactly on the left boundary of the window
 		return all[r.Intn(len(all))] + off + rg, true
 	case 4: // one millisecond around boundaries
 		return all[r.Intn(len(all))] + off + rg + int64(r.Intn(3)-1), true
-	case 5: // look-back boundary
+	case 5: // look-back boundary of an arbitrary sample
 		return all[r.Intn(len(all))] + off + lookbackMs + int64(r.Intn(3)-1), true
 	case 6: // before / after all data
 		if r.Bool() {
 			return baseMs - int64(r.Intn(600000)), false
 		}
 		return baseMs + ds.SpanMs + int64(r.Intn(900000)), false
+	case 7, 8, 9: // exactly look-back (+-1 ms) after the last sample before a gap / the end of a series
+		if len(ends) > 0 {
+			return ends[r.Intn(len(ends))] + off + lookbackMs + boundaryDelta(r), true
+		}
+		fallthrough
 	default:
 		return baseMs + int64(r.Intn(int(ds.SpanMs))), false
 	}
@@ -459,6 +502,21 @@ func subsetFor(ds *dataset, expr string) dataset {
 
 func runCase(n int, di int, ds *dataset, u *upstream, sv *server, e exprCase, mode string, t, start, end, step int64, hit bool, r *gen.Rand) caseOut {
 	co := runCase1(n, di, ds, u, sv, e, mode, t, start, end, step, hit, r)
+	// A disagreement outside every signature must persist: queries racing the asynchronous flush of the ingestion can
+	// transiently miss samples (that is C04's subject, not C18's); re-ask twice before reporting.
+	for try := 0; try < 2 && co.Unexplained; try++ {
+		time.Sleep(800 * time.Millisecond)
+		co2 := runCase1(n, di, ds, u, sv, e, mode, t, start, end, step, hit, r)
+		if !co2.Unexplained {
+			co2.Transient = (co.Diff + co.RiDiff)
+		}
+		co = co2
+	}
+	tt := t
+	if mode == "range" {
+		tt = start
+	}
+	co.GroupingTie = groupingTie(&e, tt)
 	if co.Unexplained {
 		co.Replay = &replayFile{Dataset: subsetFor(ds, e.Expr), Spec: e, Mode: mode, T: t, Start: start, End: end, Step: step}
 	}
@@ -560,16 +618,20 @@ func runCase1(n int, di int, ds *dataset, u *upstream, sv *server, e exprCase, m
 	return co
 }
 
-func genTiming(r *gen.Rand, ds *dataset, all []int64, e *exprCase) (mode string, t, start, end, step int64, hit bool) {
-	if r.Chance(2, 3) {
-		t, hit = pickTime(r, ds, all, e)
+func genTiming(r *gen.Rand, ds *dataset, all []int64, ge map[string][]int64, e *exprCase) (mode string, t, start, end, step int64, hit bool) {
+	if r.Chance(3, 5) {
+		t, hit = pickTime(r, ds, all, ge, e)
 		return "instant", t, 0, 0, 0, hit
 	}
-	start, hit = pickTime(r, ds, all, e)
-	step = int64(gen.Pick(r, []int{15000, 30000, 60000, 7000, 100000, 1000, 15000, 300000, 1500}))
+	start, hit = pickTime(r, ds, all, ge, e)
+	step = int64(gen.Pick(r, []int{15000, 30000, 60000, 7000, 100000, 1000, 15000, 300000, 1500, 60000}))
 	n := int64(r.Range(1, 14))
-	if r.Chance(1, 6) {
+	if r.Chance(1, 8) {
 		n = int64(r.Range(20, 60))
+	}
+	if r.Chance(1, 2) && n <= 14 {
+		// the aimed instant (sample, window edge, look-back edge ...) becomes the j-th step instead of the first
+		start -= step * int64(r.Intn(int(n)+1))
 	}
 	end = start + step*n
 	if r.Chance(1, 3) {
@@ -637,9 +699,10 @@ func runAll(sv *server, nds, ncases int) int {
 		}
 		gen.Emit(map[string]any{"dataset": di, "db": ds.DB, "series": len(ds.Series), "samples": nsamp, "dense": dense, "flushes": ds.Flushes, "span_ms": ds.SpanMs})
 		all := sampleTimes(&ds)
+		ge := gapEnds(&ds)
 		for c := 0; c < ncases; c++ {
 			e := genExpr(r)
-			mode, t, start, end, step, hit := genTiming(r, &ds, all, &e)
+			mode, t, start, end, step, hit := genTiming(r, &ds, all, ge, &e)
 			co := runCase(n, di, &ds, u, sv, e, mode, t, start, end, step, hit, r)
 			gen.Emit(co)
 			n++
